@@ -212,6 +212,43 @@ func l1Generate(seed int64, idx int) l1History {
 	return h
 }
 
+// l1Triples enumerates, exhaustively, every ordered triple of distinct packages from a fixed pool
+// chosen for the alias resolver (equal names under different directories, version suffixes, names
+// different from the directory, components the replacer changes, keywords, digits, twins, a
+// look-alike of sync), registered in that order by three variables of one scope, under each of
+// the three source packages: a complete small scope for AddImport / resolveImportConflict.
+var l1TriplePool = []l1Pkg{
+	{"a/one/client", "client"}, {"a/two/client", "client"}, {"a/oneclient", "oneclient"}, {"b/one/client", "client"},
+	{"k8s.io/api/core/v1", "v1"}, {"k8s.io/api/apps/v1", "v1"}, {"w/corev1", "corev1"},
+	{"gopkg.in/yaml.v3", "yaml"}, {"github.com/go-yaml/yaml", "yaml"}, {"github.com/goyaml/yaml", "yaml"},
+	{"m/type/q", "q"}, {"m/3d/q", "q"}, {"x/sync", "sync"}, {"p/bar", "bar"}, {"q/foobar", "z"}, {"foo/bar", "z"},
+}
+
+func l1Triples() []l1History {
+	var hs []l1History
+	n := len(l1TriplePool)
+	srcs := []string{"srca", "srcb", "srcc"}
+	k := 0
+	for a := 0; a < n; a++ {
+		for b := 0; b < n; b++ {
+			for c := 0; c < n; c++ {
+				if a == b || b == c || a == c {
+					continue
+				}
+				h := l1History{ID: fmt.Sprintf("l1t-%d-%d-%d", a, b, c), Src: srcs[k%3],
+					Pkgs: []l1Pkg{l1TriplePool[a], l1TriplePool[b], l1TriplePool[c], {"sync", "sync"}}}
+				for i := 0; i < 3; i++ {
+					h.Ops = append(h.Ops, l1Op{Op: "V", Name: []string{"", "client", "v1"}[(k+i)%3], Shape: "named", Pkgs: []int{i, i, i}})
+				}
+				h.Ops = append(h.Ops, l1Op{Op: "I", Pkgs: []int{3}})
+				hs = append(hs, h)
+				k++
+			}
+		}
+	}
+	return hs
+}
+
 // ---------- building go/types objects ----------
 
 type l1World struct {
@@ -392,6 +429,7 @@ func cmdL1(args []string) {
 	shards := fs.Int("shards", 16, "parallel worker processes")
 	perCase := fs.Duration("timeout", 30*time.Second, "per-history timeout")
 	only := fs.String("only", "", "JSON file with one history to replay")
+	triples := fs.Bool("triples", false, "also enumerate every ordered triple of the alias-resolver pool")
 	fs.Parse(args)
 	if err := l1WriteModule(*root); err != nil {
 		die("%v", err)
@@ -410,6 +448,9 @@ func cmdL1(args []string) {
 	} else {
 		for i := 0; i < *n; i++ {
 			hs = append(hs, l1Generate(*seed, i))
+		}
+		if *triples {
+			hs = append(hs, l1Triples()...)
 		}
 	}
 	results := make([]l1Obs, len(hs))
